@@ -17,6 +17,7 @@ from vmon.core import rng_for
 
 PROPERTY = 'C14'
 LEVEL = 'exploration'
+TECHNIQUE = 'runtime monitoring: structural invariant walk under the heap\'s own lock + content shadow, with frees injected inside malloc by a sys.monitoring failpoint (gc.collect) and by racing threads'
 RULE = ('seeded malloc/free histories on fresh Heap(size) instances and on the '
         'global BufferWrapper heap; a case is one history; its signature is '
         '(mode, heap size class, free policy, bucketed counts of arena growths, '
